@@ -34,7 +34,8 @@ def run(ctx):
             return "Rot: exact Rodrigues matrix"
         return "Obs %s axis class %s%s" % (bad.get("kind"), bad.get("cls"), "" if bad.get("fin") else " (not finite)")
 
-    ctx.validate_all("Trace_Geometry", trace, key_of, group_start="__each__", max_rejections=12, rest_cfg="Trace_Geometry_rest.cfg",
+    # (a recorder that died leaves a truncated trace: the coverage invariant does not apply to it)
+    ctx.validate_all("Trace_Geometry", trace, key_of, cfg="Trace_Geometry_rest.cfg" if d else None, group_start="__each__", max_rejections=12, rest_cfg="Trace_Geometry_rest.cfg",
                      what_of=lambda ex, bad: "rejected by spec/Trace_Geometry.tla: %s" % json.dumps(bad)[:300])
     lines = open(trace).read().splitlines()
     ctx.sample({"trace_event": json.loads(lines[0])})
